@@ -463,6 +463,12 @@ def rule_time_split(ctx: Ctx):
                                                  "closing_mapper is consulted although a timeout has already expired the window", extra="closing-when-expired"))
                 r3.ob(tuple(closing_calls[0].args) == (EVITEM,), lambda: mk_finding(
                     "ORD-1", spec, kind, cfg, p, "closing_mapper is not applied to the item", extra="closing-arg"))
+            if cfg.get("closing_mapper") == "Obj" and not expired and _normal(p):
+                # ... and always when not expired: every item that does not expire the window (the first item of a key
+                # included) is shown to closing_mapper
+                r3.ob(bool(closing_calls), lambda: mk_finding(
+                    "ORD-1", spec, kind, cfg, p, "closing_mapper is set and the item does not expire the window, but closing_mapper is not consulted on "
+                    "this path%s: a closing item would not close its window" % (" (first item of a key)" if first else ""), extra="closing-skipped"))
             body = kinds[1:] if first and kinds[:1] == ["Create"] else kinds
             if first:
                 r3.ob(kinds[:1] == ["Create"], lambda: mk_finding("ORD-1", spec, kind, cfg, p, "the first item of a key must open a window first; events: %s" % kinds, extra="first"))
